@@ -133,6 +133,12 @@ Shapes(i) == {
     <<Reserved(Nm("r", i), -1, 4, 8)>>,                                          \* straddles a byte boundary
     <<Value(Nm("p", i), -1, -1, [k |-> "eopfield", st |-> ItemT])>>,
     <<Value(Nm("p", i), -1, -1, [k |-> "dlfield", st |-> ItemT, off |-> 1, cbp |-> 0, cbit |-> 0, cdct |-> U8])>>,
+    \* the first item does not follow the count directly (an empty field still reaches up to the offset)
+    <<Value(Nm("p", i), -1, -1, [k |-> "dlfield", st |-> Item, off |-> 2, cbp |-> 0, cbit |-> 0, cdct |-> U8])>>,
+    \* items that end in a terminated string, in a static field and in front of an end marker (the last item is the last)
+    <<Value(Nm("p", i), -1, -1, [k |-> "sfield", st |-> ItemT, cnt |-> 2, isz |-> 4])>>,
+    <<Value(Nm("p", i), -1, -1, [k |-> "demfield", st |-> ItemT, tdct |-> U8, tv |-> IntV(255)])>>,
+
     <<Matching(Nm("m", i), -1, 1, 1)>>,
     <<Matching(Nm("m", i), -1, 1, 2)>>,
     <<Nrc(Nm("n", i), i, <<IntV(16), IntV(17)>>), Value(Nm("p", i), i, -1, SimpleA(U8, {IntV(16), IntV(17)}))>>,
@@ -157,6 +163,10 @@ Inner(i) == {sh \in Shapes(i) : ~(Len(sh) = 1 /\ sh[1].dop.k = "demfield")}
 \* ... and a table key placed after the content it selects (explicit positions; nothing may follow: it would read the key)
 PickC1 == \/ \E a \in Shapes(1) : Pick(D(<<SID>> \o a))
           \/ Pick(D(<<SID, TabKey("k1", 3, Tab1), TabStruct("t1", 1, Tab1, "k1")>>))
+          \* ... and a multiplexer whose switch key sits behind the content it selects
+          \/ Pick(D(<<SID, Value("p1", -1, -1, [k |-> "mux", bp |-> 0, kbp |-> 1, kbit |-> 0, kdct |-> U8, hasdflt |-> FALSE,
+                                                cases |-> <<Case("c1", 1, 1, Item), Case("c2", 2, 2, Item)>>,
+                                                dflt |-> Case("none", 0, 0, NoDop)])>>))
 PickC2 == \E a \in Inner(1), b \in Shapes(2) : Pick(D(<<SID>> \o a \o b))
 \* an object that reads up to the end of the PDU (field, unterminated text) must not start in front of (or inside) an object
 \* placed earlier: with three shapes the middle one is not positioned explicitly (it could jump backwards)
